@@ -27,7 +27,7 @@ COMPONENTS = {
     ],
     "simulated": ["both byte streams (strict SimPipe): blocking exact reads or short reads, knowledge of the message end, the peer that sends nothing more"],
     "stub": [
-        "echo request handlers sim.nobody / sim.body",
+        "echo request handlers sim.nobody / sim.body / sim.early (sim.early takes a body but answers from do(), as PutRequest.do does when it refuses its path)",
         "hand-built ConventionalResponseHandler after a client-side v3 body stream raised",
         "about 12% of the exchanges drive LengthPrefixedBodyDecoder / ChunkedBodyDecoder / ProtocolThreeDecoder directly with the reader loop every caller uses (read next_read_size() bytes until finished), on real encoder output",
     ],
